@@ -25,6 +25,7 @@ add("additional-items-bound","C06","slice_validator.go","for i := itemsSize; i <
 add("unchecked-string-assert","C06","validator.go","\tdata, ok := val.(string)\n\tif !ok {\n\t\treturn errorHelp.sErr(errors.InvalidType(s.Path, s.In, stringType, val), s.Options.recycleResult)\n\t}\n","\tdata := val.(string)\n","D-DYN:(*stringValidator).Validate", quick=False)
 # C07
 add("nil-result-dereferenced","C07","default_validator.go","\t\t} else if red != nil && red.wantsRedeemOnMerge {\n\t\t\tpools.poolOfResults.RedeemResult(red)\n\t\t}\n\t}\n\treturn res\n}\n\nfunc (d *defaultValidator) validateDefaultValueSchemaAgainstSchema","\t\t} else if red.wantsRedeemOnMerge {\n\t\t\tpools.poolOfResults.RedeemResult(red)\n\t\t}\n\t}\n\treturn res\n}\n\nfunc (d *defaultValidator) validateDefaultValueSchemaAgainstSchema","NIL:(*defaultValidator).validateDefaultInResponse")
+add("validator-built-on-unresolved-refs","C07","default_validator.go","\tif schema.Default != nil && s.canValidateAgainst(schema) {\n","\tif schema.Default != nil {\n","EXPAND-FIRST:(*defaultValidator).validateDefaultValueSchemaAgainstSchema", quick=False)
 # C02
 add("schema-pass-skippable","C02","spec.go","\terrs.Merge(schv.Validate(obj)) // error -\n","\tif s.Options.ContinueOnErrors {\n\t\terrs.Merge(schv.Validate(obj)) // error -\n\t}\n","MUST-PASS:schema-pass:unconditional")
 # C03
